@@ -121,6 +121,8 @@ func cmNonTimeAtoms() []cmAtom {
 		{text: "true", eval: func(p cmPoint) bool { return true }},
 		{text: "host::tag = 'a'", eval: func(p cmPoint) bool { return p.host == "a" }},
 		{text: "flag = true", eval: func(p cmPoint) bool { return p.value > 5 }},
+		{text: "value % 2 = 0", eval: func(p cmPoint) bool { return p.value%2 == 0 }},
+		{text: "(host != '100%' OR region = '%d%s')", eval: func(p cmPoint) bool { return true }},
 		{text: "(flag != true OR true = flag)", eval: func(p cmPoint) bool { return true }},
 		{text: "flag != true", eval: func(p cmPoint) bool { return !(p.value > 5) }},
 		{text: "(value::integer > 5 OR region::tag = 'x')", eval: func(p cmPoint) bool { return p.value > 5 || p.region == "x" }},
